@@ -443,3 +443,62 @@ N("i-n-prefix-inline", SI, """    head = f"{epoch}!" if epoch else ""
     if epoch:
         head = str(epoch) + "!"
 """, props=["C17", "C04", "C01"])
+
+# ---------------------------------------------------------------- C03 / C10 / C13
+M("k-operators-lt", SG, '"<": operator.lt,', '"<": operator.le,', fire=["C03"])
+M("k-operators-in-swap", SG, '"in": lambda lhs, rhs: lhs in rhs,', '"in": lambda lhs, rhs: rhs in lhs,', fire=["C03"])
+M("k-reflect-lt", UT, '''    "<": ">",
+    "<=": ">=",''', '''    "<": "<",
+    "<=": ">=",''', fire=["C03", "C07"])
+M("k-normalize-dropped", SG, """            value = normalize_name(self.value)
+            extra = {normalize_name(v) for v in extra}""", """            value = self.value
+            extra = {normalize_name(v) for v in extra}""", fire=["C03"])
+M("k-build-markers-and", "markers/__init__.py", "or_groups[-1] &= _build_markers(item)", "or_groups[-1] |= _build_markers(item)", fire=["C03"])
+M("k-build-markers-rev", "markers/__init__.py", """                str(markers[2]),
+                get_reflect_op(str(markers[1])),
+                str(markers[0]),
+                True,""", """                str(markers[2]),
+                str(markers[1]),
+                str(markers[0]),
+                True,""", fire=["C03"])
+M("k-context-lock", SG, 'current_environment.update(extras=set(), dependency_groups=set())', 'current_environment.update(extras=set())', fire=["C03"])
+M("k-multi-evaluate-any", MU_, "return all(m.evaluate(environment, context) for m in self.markers)", "return any(m.evaluate(environment, context) for m in self.markers)", fire=["C03"])
+M("k-compare-false-value", SG, """    name: str
+    op: str
+    value: str
+    reversed: bool = field(default=False, compare=False, hash=False)""", """    name: str
+    op: str
+    value: str = field(compare=False)
+    reversed: bool = field(default=False, compare=False, hash=False)""", fire=["C13"])
+M("k-hash-only-reversed", SG, "reversed: bool = field(default=False, compare=False, hash=False)", "reversed: bool = field(default=False, compare=False, hash=True)", fire=["C13"])
+M("k-any-hash-regress", S, "return hash((None, None, False, False))", "return hash(str(self))", fire=["C13"])
+M("k-empty-eq-any", S, """        if not isinstance(other, BaseSpecifier):
+            return NotImplemented
+        return isinstance(other, EmptySpecifier)""", """        if not isinstance(other, BaseSpecifier):
+            return NotImplemented
+        return isinstance(other, (EmptySpecifier, AnySpecifier))""", fire=["C13", "C05"])
+M("k-new-cache-of", MU_, """    @classmethod
+    def of(cls, *markers: BaseMarker) -> BaseMarker:
+        from dep_logic.markers.union import MarkerUnion
+""", """    @classmethod
+    @functools.lru_cache(maxsize=None)
+    def of(cls, *markers: BaseMarker) -> BaseMarker:
+        from dep_logic.markers.union import MarkerUnion
+""", fire=["C10"])
+M("k-mutate-shared", SG, """        if merged is not None:
+            return merged
+
+        return MultiMarker(self, other)""", """        if merged is not None:
+            if isinstance(merged, MarkerExpression):
+                merged.reversed = self.reversed
+            return merged
+
+        return MultiMarker(self, other)""", fire=["C10"])
+M("k-cache-env", "markers/__init__.py", """    if not marker or marker == "*":
+        return AnyMarker()""", """    import os
+    if not marker or marker == os.environ.get("ANY", "*"):
+        return AnyMarker()""", fire=["C10"])
+N("k-n-cache-alias", UT, "@functools.lru_cache(maxsize=None)\ndef cnf", "@functools.cache\ndef cnf", props=["C10"])
+N("k-n-operators-comp", SG, '''    "<": operator.lt,
+    "<=": operator.le,''', '''    "<=": operator.le,
+    "<": operator.lt,''', props=["C03"])
